@@ -1283,7 +1283,9 @@ def enumerate_grids(tier, seed):
                     {"cls": "CartesianGrid", "bounds": [list(BOUND_KINDS[x]) for x in k], "shape": list(sh), "periodic": per}
                 )
     for j, sh in enumerate(s3):
-        triples = list(itertools.product(kinds, repeat=3)) if (not quick and j < 2) else rot
+        triples = rot
+        if not quick and j < 2:  # complete product of the first five kinds + covering design with (0, 4.5)
+            triples = list(itertools.product(kinds[:5], repeat=3)) + [t for t in rot if "halfint" in t]
         for per in flags(3):
             out["UnitGrid"].append({"cls": "UnitGrid", "shape": list(sh), "periodic": per})
             for k in triples:
